@@ -47,6 +47,10 @@ type State struct {
 
 var S = &State{}
 
+// slots keep further instances alive beside the current one (several tries in
+// one process: a builder that recycles buffers across builds shows only then)
+var slots = map[string]State{}
+
 func EncoderOf(name string) encode.Encoder {
 	switch name {
 	case "none":
@@ -308,6 +312,18 @@ func interp(toks []string) string {
 		// option struct (pointer targets included) and compares them afterwards (C20)
 		r := interp(append([]string{"trie.new"}, toks[1:]...))
 		return r + " " + lastInputsCheck
+	case "trie.stash":
+		// keep the current instance alive in a slot
+		slots[toks[1]] = *s
+		return "ok"
+	case "trie.unstash":
+		// make the instance of a slot current again
+		st, ok := slots[toks[1]]
+		if !ok {
+			return "no-slot"
+		}
+		*s = st
+		return "ok"
 	case "trie.reset":
 		s.St.Reset()
 		return "ok"
